@@ -368,6 +368,108 @@ def oracle_start_after_inputs(o, program):
     return out
 
 
+def oracle_input_being_recomputed(o, program):
+    """model-free: when a consumer starts with the value v of producer P, no recomputation that will supersede v
+    may already be under way, i.e. neither P nor a dependency-ancestor of P has started an execution after the
+    execution of P that produced v ended. Holds for every program shape (also outside readers of a recurrent
+    subgraph, where the documentation does not say WHICH iteration a reader sees: whichever it is, it must not be
+    one that is being replaced at that very moment)."""
+    out = []
+    g = S.deps_graph(program)
+    anc_cache = {}
+    by_node = {}
+    for e in o.bodies:
+        by_node.setdefault(e['node'], []).append(e)
+    for x in o.bodies:
+        for kw, v in x['kwargs'].items():
+            if not R.is_value(v) or v[2].startswith('D') or v[1] not in by_node:
+                continue
+            cv = R.canon(v)
+            prods = [p for p in by_node[v[1]] if p.get('outcome') == 'ok' and p.get('end') and p['end'] < x['seq']
+                     and R.canon(p.get('value')) == cv]
+            if not prods:
+                continue
+            p_end = max(p['end'] for p in prods)
+            pid = v[1]
+            if pid not in anc_cache:
+                # only nodes whose re-execution entails a re-execution of P: members of a recurrent subgraph that
+                # contains P and lie upstream of P inside it
+                up = S.ancestors(g, pid) | {pid}
+                rel = set()
+                for _, _, m in S.rec_marks(program):
+                    path = S.rec_path_nodes(program, m[1], m[2], g)
+                    if pid in path:
+                        rel |= (path & up)
+                anc_cache[pid] = rel
+            for a in anc_cache[pid]:
+                for e in by_node.get(a, []):
+                    if p_end < e['seq'] < x['seq']:
+                        out.append(('input-being-recomputed',
+                                    f'{x["node"]}.{kw} started with the value of {pid} although {a} (which {pid} depends '
+                                    f'on) had already started a new execution: the value is being superseded'))
+                        break
+                else:
+                    continue
+                break
+    return out
+
+
+@st.composite
+def outside_reader_templates(draw, tier):
+    """directed shape for the same region: a recurrent chain S -> ... -> D, an outside node X that reads an interior
+    node M and a second producer W of generated depth; the completion of W is placed, by one delay schedule per
+    position, at EVERY point of the run (so also inside every re-iteration window)"""
+    def N(nid, params=(), mode='gated', **kw):
+        d = {'id': nid, 'params': [list(p) for p in params], 'mode': mode}
+        d.update(kw)
+        return d
+    ext = st.sampled_from(['gated', 'gated', 'thread', 'process'])
+    ln = draw(st.integers(2, 4))
+    nodes = [N('n0', mode=draw(st.sampled_from(['coro', 'inline', 'gated'])))]
+    prev = 'n0'
+    chain = []
+    for i in range(ln):
+        nid = f'n{len(nodes)}'
+        nodes.append(N(nid, [('k0', ['in', prev])], mode=draw(ext)))
+        chain.append(nid)
+        prev = nid
+    nodes[1]['additional_data'] = True
+    nodes[len(nodes) - 1]['rec_dest'] = True
+    if draw(st.booleans()):
+        nodes[len(nodes) - 1]['use_default'] = True
+    m = chain[draw(st.integers(0, ln - 2))]
+    prev = 'n0'
+    for _ in range(draw(st.integers(0, ln + 1))):
+        nid = f'n{len(nodes)}'
+        nodes.append(N(nid, [('k0', ['in', prev])], mode=draw(st.sampled_from(['coro', 'inline']))))
+        prev = nid
+    w = f'n{len(nodes)}'
+    nodes.append(N(w, [('k0', ['in', prev])], mode=draw(ext)))
+    x = f'n{len(nodes)}'
+    nodes.append(N(x, [('k0', ['in', m]), ('k1', ['in', w])], mode=draw(ext)))
+    maxit = draw(st.integers(1, 3))
+    out = f'n{len(nodes)}'
+    nodes.append(N(out, [('k0', ['rec', chain[0], chain[-1], maxit]), ('k1', ['in', x])], mode=draw(ext)))
+    prog = {'nodes': nodes, 'output': out}
+    var = {'x': 0, 'nodes': {chain[-1]: {'rec_n': draw(st.integers(1, maxit + 1))}}}
+    scheds = [{'kind': 'delay', 'node': w, 'after': k} for k in range(0, 4 * ln + 8)]
+    return {'program': prog, 'variant': var, 'scheds': scheds, 'outside_readers': True, 'template': True}
+
+
+@st.composite
+def outside_reader_cases(draw, tier):
+    """recurrent subgraphs whose interior is also read from outside (known finding F6: which iteration the reader
+    sees is schedule-dependent). Only the model-free oracle above is applied to these cases."""
+    # overlapping subgraphs (known finding F7) are kept out: there the re-execution of a shared start node by ONE
+    # subgraph does not entail the recomputation of the members of the OTHER, and the rule below would not be sound
+    prog = draw(G.programs(feats=('rec', 'default', 'retry'), clean=False, min_nodes=4,
+                           max_nodes=8 if tier == 'quick' else 10, p_feat=40).filter(
+        lambda p: not F.f7_overlapping_recurrent(p)))
+    var = draw(G.variants(prog, feats=('rec',)))
+    scheds = [draw(G.schedules(prog)) for _ in range(3)]
+    return {'program': prog, 'variant': var, 'scheds': scheds, 'outside_readers': True}
+
+
 class C03(EngineCheck):
     id = 'C03'
     rule = ('case = program x variant x 4 schedules (rank schedules hold chosen producers back); every body '
@@ -377,9 +479,18 @@ class C03(EngineCheck):
             'producers while >=2 completions were outstanding, or a value delivered through a switch / one-of / '
             'recurrent mark')
 
+    def strategy(self, tier):
+        base = super().strategy(tier)
+        return st.one_of(base, base, base, base, base, base, outside_reader_cases(tier),
+                         outside_reader_templates(tier))
+
     def oracle(self, case, refres, obs):
         v = []
         for i, o in enumerate(obs):
+            if case.get('outside_readers'):
+                # F6 region: no reference comparison, no termination claim; one model-free rule
+                v += _tag(oracle_input_being_recomputed(o, case['program']), i)
+                continue
             t = O.oracle_termination(o)
             if t:
                 v += _tag(t, i)
@@ -387,7 +498,17 @@ class C03(EngineCheck):
             v += _tag(O.oracle_kwargs_model_free(o, case['program']), i)
             v += _tag(O.oracle_kwargs(o, refres), i)
             v += _tag(oracle_start_after_inputs(o, case['program']), i)
+            v += _tag(oracle_input_being_recomputed(o, case['program']), i)
         return v
+
+    def classes(self, case, refres, obs):
+        cl = super().classes(case, refres, obs)
+        if case.get('outside_readers'):
+            cl.append('outside-reader-region')
+            if F.f6_outside_reader(case['program']) and any(i['epoch'] > 0 for v in refres['invocations'].values()
+                                                            for i in v):
+                cl.append('outside-reader-with-re-iteration')
+        return cl
 
     def nontrivial(self, case, refres, obs):
         prog = case['program']
@@ -453,6 +574,8 @@ class C05(EngineCheck):
     id = 'C05'
     level = 'fault_enumeration'
     feats = BASE_FEATS + ('fatal',)
+    p_feat = 45
+    quick_examples = 2000
     rule = ('case = program x set of failing nodes (from the variant; thorough additionally enumerates ALL subsets of '
             'reachable nodes failing for programs with <=7 reachable nodes) x 4 schedules; verdict, value and cause '
             'are compared with the reference: error is (identity) an exception raised by a required node in this run '
@@ -469,6 +592,8 @@ class C05(EngineCheck):
             case = draw(G.cases(**kw))
             if tier == 'thorough' and draw(st.integers(0, 11)) == 0:
                 case['enumerate_failsets'] = True
+            if 'focus_fail' not in case['variant'] and draw(st.booleans()):
+                G.focus_shared_failure(draw, case['program'], case['variant'])
             return _sanitize(case)
 
         return s()
@@ -522,6 +647,61 @@ class C05(EngineCheck):
 
 
 # ------------------------------------------------------------------------------------------------ C09
+@st.composite
+def switch_in_recurrent_templates(draw, tier):
+    """a switch on the start->destination path of a recurrent subgraph whose label changes from iteration to
+    iteration (known finding F8 region: non-selected cases are executed there too; only ROUTING is checked: in
+    every iteration the consumer must receive the case that matches the label returned in that iteration)"""
+    def N(nid, params=(), mode='gated', **kw):
+        d = {'id': nid, 'params': [list(p) for p in params], 'mode': mode}
+        d.update(kw)
+        return d
+    ext = st.sampled_from(['gated', 'gated', 'thread', 'coro', 'inline'])
+    ncase = draw(st.integers(2, 3))
+    nodes = [N('n0', mode='coro'), N('n1', [('k0', ['in', 'n0'])], mode=draw(ext), additional_data=True),
+             N('n2', [('k0', ['in', 'n1'])], mode=draw(ext))]
+    cases = []
+    for i in range(ncase):
+        nid = f'n{len(nodes)}'
+        nodes.append(N(nid, [('k0', ['in', 'n1'])], mode=draw(ext)))
+        cases.append([f'L{i}', nid])
+    cons = f'n{len(nodes)}'
+    params = [('k0', ['sw', 'sw_rec', 'n2', cases])]
+    if draw(st.booleans()):
+        params.append(('k1', ['in', cases[0][1]]))  # a case that is also a plain input
+    nodes.append(N(cons, params, mode=draw(ext)))
+    dest = f'n{len(nodes)}'
+    nodes.append(N(dest, [('k0', ['in', cons])], mode=draw(ext), rec_dest=True, use_default=draw(st.booleans())))
+    maxit = draw(st.integers(1, 3))
+    out = f'n{len(nodes)}'
+    nodes.append(N(out, [('k0', ['rec', 'n1', dest, maxit])], mode=draw(ext)))
+    prog = {'nodes': nodes, 'output': out}
+    labels = [draw(st.sampled_from([c[0] for c in cases])) for _ in range(maxit + 2)]
+    var = {'x': 0, 'nodes': {'n2': {'labels': labels}, dest: {'rec_n': draw(st.integers(1, maxit))}}}
+    scheds = [draw(G.schedules(prog)) for _ in range(3)]
+    return {'program': prog, 'variant': var, 'scheds': scheds, 'switch_in_recurrent': cons}
+
+
+def oracle_routing_per_iteration(o, case):
+    out = []
+    prog, var = case['program'], case['variant']
+    cons = case['switch_in_recurrent']
+    labels = var['nodes']['n2']['labels']
+    mark = [m for _, m in S.node_index(prog)[cons]['params'] if m[0] == 'sw'][0]
+    by_label = {l: c for l, c in mark[3]}
+    ents = [e for e in o.bodies if e['node'] == cons]
+    for i, e in enumerate(ents):
+        want = by_label[labels[min(i, len(labels) - 1)]]
+        v = e['kwargs'].get('k0')
+        if not R.is_value(v) or v[1] != want:
+            out.append(('wrong-case-routed', f'iteration {i}: switch node returned {labels[min(i, len(labels) - 1)]!r} but '
+                                             f'{cons}.k0 = {R.canon(v)} (expected the value of {want})'))
+        elif dict(v[3]).get('n1', 0) != i:
+            out.append(('stale-case-value', f'iteration {i}: {cons}.k0 = {R.canon(v)} belongs to iteration '
+                                            f'{dict(v[3]).get("n1", 0)}'))
+    return out
+
+
 class C09(EngineCheck):
     id = 'C09'
     feats = ('switch', 'fail', 'unknown_label', 'oneof', 'retry', 'default', 'generic', 'falsy')
@@ -539,13 +719,18 @@ class C09(EngineCheck):
         def with_switch(case):
             return S.has_kind(case['program'], 'sw')
 
-        return G.cases(**kw).map(_sanitize).filter(with_switch)
+        base = G.cases(**kw).map(_sanitize).filter(with_switch)
+        return st.one_of(base, base, base, base, base, base, base, switch_in_recurrent_templates(tier))
 
     def oracle(self, case, refres, obs):
         v = []
         for i, o in enumerate(obs):
             v += _tag(O.oracle_outcome(o, refres), i)
             if o.status != 'done':
+                continue
+            if case.get('switch_in_recurrent'):
+                # F8 region: laziness is known to be broken there; routing must still be right in every iteration
+                v += _tag(oracle_routing_per_iteration(o, case), i)
                 continue
             v += _tag(O.oracle_executed(o, refres), i)
             v += _tag([x for x in O.oracle_kwargs(o, refres) if x[0] == 'wrong-kwargs'], i)
@@ -554,6 +739,8 @@ class C09(EngineCheck):
     def _facts(self, case, refres):
         prog = case['program']
         facts = set()
+        if case.get('switch_in_recurrent'):
+            facts.add('switch-inside-recurrent-label-changes')
         for n in prog['nodes']:
             if n['id'] not in refres['demanded']:
                 continue
